@@ -34,6 +34,7 @@ type step struct {
 
 type history struct {
 	Index     int    `json:"index"`
+	Kind      string `json:"kind,omitempty"` // classic | late-fields | many-series
 	Config    string `json:"config"`
 	SingleGen bool   `json:"single_generation"`
 	Steps     []step `json:"steps"`
@@ -59,9 +60,47 @@ func lp(pts []model.Point) []string {
 // genHistory. singleGen: every (series,timestamp) is written in exactly one flush
 // generation (late data still exist: older timestamps of OTHER keys arrive after newer
 // ones were flushed).
+// kinds of history by index (mod 8); the even indexes are single-generation histories
+var kinds = []string{"classic", "classic", "late-fields", "late-fields", "many-series", "classic", "late-fields", "many-series"}
+
+// numericFields the queries of a history of this kind aggregate.
+func numericFields(kind string) []callSpec {
+	fs := []callSpec{{Field: "fi", Kind: 'i'}, {Field: "ff", Kind: 'f'}}
+	if kind == "late-fields" || kind == "many-series" {
+		fs = append(fs, callSpec{Field: "gi", Kind: 'i'}, callSpec{Field: "gf", Kind: 'f'})
+	}
+	return fs
+}
+
+var fieldKind = map[string]byte{"fi": 'i', "ff": 'f', "gi": 'i', "gf": 'f'}
+
+// field subsets of the many-series kind: every series writes only its own subset, so
+// the pieces folded together inside one cursor lack each other's fields
+var subsets = [][]string{{"fi"}, {"ff"}, {"gi"}, {"gf"}, {"fi", "gf"}, {"ff", "gi"}, {"fi", "fb"}, {"gf", "fb"}}
+
+// genHistory.
+//   - classic: 5 series, four typed fields, every row a random subset of them.
+//   - late-fields: the same, plus two numeric fields gi, gf that appear only after the
+//     first flush, mostly in rows of their own: the older fields of a series sit in files
+//     while the new ones are still in the memtable, and files differ in the fields they hold.
+//   - many-series: 48 series (more than the query parallelism) under 5 host values, each
+//     series writing only its own subset of the fields.
 func genHistory(r *rand.Rand, idx int, singleGen bool, nops int) *history {
-	h := &history{Index: idx, SingleGen: singleGen, Config: configs[idx%len(configs)].Name}
+	h := &history{Index: idx, Kind: kinds[idx%len(kinds)], SingleGen: singleGen, Config: configs[idx%len(configs)].Name}
 	u := kit.NewUniverse(1, 5, 24)
+	kindOf := map[string]byte{"fi": 'i', "ff": 'f', "gi": 'i', "gf": 'f', "fb": 'b', "fs": 's'}
+	if h.Kind == "many-series" {
+		hosts := []string{"a", "b", "c", "d", "e"}
+		u.Series = nil
+		for i := 0; i < 48; i++ {
+			u.Series = append(u.Series, map[string]string{"host": hosts[i%5], "region": []string{"x", "y"}[(i/5)%2], "n": fmt.Sprintf("%02d", i)})
+		}
+	}
+	seriesNo := func(se map[string]string) int {
+		n, _ := strconv.Atoi(se["n"])
+		return n
+	}
+	flushed := false
 	add := func(op string, pts []model.Point) {
 		h.Steps = append(h.Steps, step{Op: op, pts: pts, Points: lp(pts)})
 	}
@@ -77,17 +116,43 @@ func genHistory(r *rand.Rand, idx int, singleGen bool, nops int) *history {
 				continue
 			}
 			p := model.Point{Mst: "m0", Tags: se, T: t, Fields: map[string]model.Value{}}
-			for _, f := range u.Fields {
-				prob := 2
-				if nullHeavy {
-					prob = 4
+			switch {
+			case h.Kind == "many-series":
+				for _, f := range subsets[seriesNo(se)%len(subsets)] {
+					if r.IntN(4) != 0 {
+						p.Fields[f] = kit.Value(r, kindOf[f])
+					}
 				}
-				if r.IntN(prob) == 0 || f.Name == "fb" && r.IntN(2) == 0 {
-					p.Fields[f.Name] = kit.Value(r, f.Kind)
+				if len(p.Fields) == 0 {
+					f := subsets[seriesNo(se)%len(subsets)][0]
+					p.Fields[f] = kit.Value(r, kindOf[f])
 				}
-			}
-			if len(p.Fields) == 0 {
-				p.Fields["fi"] = kit.Value(r, 'i')
+			case h.Kind == "late-fields" && flushed && r.IntN(2) == 0:
+				// a row of the late fields only (sometimes with one old field)
+				for _, f := range []string{"gi", "gf"} {
+					if r.IntN(3) != 0 {
+						p.Fields[f] = kit.Value(r, kindOf[f])
+					}
+				}
+				if len(p.Fields) == 0 {
+					p.Fields["gf"] = kit.Value(r, 'f')
+				}
+				if r.IntN(4) == 0 {
+					p.Fields["fi"] = kit.Value(r, 'i')
+				}
+			default:
+				for _, f := range u.Fields {
+					prob := 2
+					if nullHeavy {
+						prob = 4
+					}
+					if r.IntN(prob) == 0 || f.Name == "fb" && r.IntN(2) == 0 {
+						p.Fields[f.Name] = kit.Value(r, f.Kind)
+					}
+				}
+				if len(p.Fields) == 0 {
+					p.Fields["fi"] = kit.Value(r, 'i')
+				}
 			}
 			cur[key] = true
 			pts = append(pts, p)
@@ -95,6 +160,16 @@ func genHistory(r *rand.Rand, idx int, singleGen bool, nops int) *history {
 		return pts
 	}
 	seed := u.SeedBatch(r, nil)
+	if h.Kind == "many-series" {
+		// the seed row of a series carries its own field subset only
+		for i := range seed {
+			fs := map[string]model.Value{}
+			for _, f := range subsets[seriesNo(seed[i].Tags)%len(subsets)] {
+				fs[f] = kit.Value(r, kindOf[f])
+			}
+			seed[i].Fields = fs
+		}
+	}
 	for _, p := range seed {
 		cur[model.SeriesKey(p.Tags)+"@"+strconv.FormatInt(p.T, 10)] = true
 	}
@@ -103,9 +178,14 @@ func genHistory(r *rand.Rand, idx int, singleGen bool, nops int) *history {
 		x := r.IntN(100)
 		switch {
 		case x < 55:
-			add("write", gen(2+r.IntN(10), r.IntN(3) == 0))
+			n := 2 + r.IntN(10)
+			if h.Kind == "many-series" {
+				n = 10 + r.IntN(30)
+			}
+			add("write", gen(n, r.IntN(3) == 0))
 		case x < 78:
 			add("flush", nil)
+			flushed = true
 			for k := range cur {
 				used[k] = true
 			}
@@ -137,19 +217,57 @@ type rawRow struct {
 
 var funcs = []string{"count", "sum", "mean", "min", "max", "first", "last"}
 
-// Group: "" overall | "host" per tag | "time" per bucket | "time,host" per bucket and tag
+// callSpec is one aggregate call of a statement.
+type callSpec struct {
+	Func  string `json:"func"`
+	Field string `json:"field"`
+	Kind  byte   `json:"-"`
+}
+
+// Group: "" overall | "host" per tag | "time" per bucket | "time,host" per bucket and tag.
+// Func/Field is the first call; More holds the further calls of a multi-call statement
+// (SELECT f(a) AS c0, g(b) AS c1 ...).
 type querySpec struct {
-	Func   string `json:"func"`
-	Field  string `json:"field"`
-	Kind   byte   `json:"-"`
-	TMin   int64  `json:"tmin"`
-	TMax   int64  `json:"tmax"`
-	Bound  bool   `json:"time_bounded"`
-	Filter string `json:"filter,omitempty"` // field filter text
-	Group  string `json:"group"`
-	Width  int64  `json:"bucket_ns,omitempty"`
-	Hint   bool   `json:"exact_hint"`
-	Desc   bool   `json:"desc"`
+	Func   string     `json:"func"`
+	Field  string     `json:"field"`
+	Kind   byte       `json:"-"`
+	More   []callSpec `json:"more_calls,omitempty"`
+	TMin   int64      `json:"tmin"`
+	TMax   int64      `json:"tmax"`
+	Bound  bool       `json:"time_bounded"`
+	Filter string     `json:"filter,omitempty"` // field filter text
+	Group  string     `json:"group"`
+	Width  int64      `json:"bucket_ns,omitempty"`
+	Hint   bool       `json:"exact_hint"`
+	Desc   bool       `json:"desc"`
+}
+
+func (q querySpec) calls() []callSpec {
+	return append([]callSpec{{Func: q.Func, Field: q.Field, Kind: q.Kind}}, q.More...)
+}
+func (q querySpec) multi() bool { return len(q.More) > 0 }
+
+// column names the output column of call i.
+func (q querySpec) column(i int) string {
+	if q.multi() {
+		return fmt.Sprintf("c%d", i)
+	}
+	return q.Func
+}
+
+func (q querySpec) callsText() string {
+	var ps []string
+	for _, c := range q.calls() {
+		ps = append(ps, fmt.Sprintf("%s(%s)", c.Func, c.Field))
+	}
+	return strings.Join(ps, ",")
+}
+
+func (q *querySpec) restoreKinds() {
+	q.Kind = fieldKind[q.Field]
+	for i := range q.More {
+		q.More[i].Kind = fieldKind[q.More[i].Field]
+	}
 }
 
 func (q querySpec) byTime() bool { return strings.HasPrefix(q.Group, "time") }
@@ -174,7 +292,15 @@ func (q querySpec) aggText() string {
 	if q.Hint {
 		hint = "/*+ Exact_Statistic_Query */ "
 	}
-	s := fmt.Sprintf("SELECT %s%s(%s) FROM m0%s", hint, q.Func, q.Field, q.where())
+	sel := fmt.Sprintf("%s(%s)", q.Func, q.Field)
+	if q.multi() {
+		var ps []string
+		for i, c := range q.calls() {
+			ps = append(ps, fmt.Sprintf("%s(%s) AS %s", c.Func, c.Field, q.column(i)))
+		}
+		sel = strings.Join(ps, ", ")
+	}
+	s := fmt.Sprintf("SELECT %s%s FROM m0%s", hint, sel, q.where())
 	switch q.Group {
 	case "host":
 		s += " GROUP BY host"
@@ -189,8 +315,20 @@ func (q querySpec) aggText() string {
 	return s
 }
 
+func (q querySpec) rawFields() []string {
+	var fs []string
+	seen := map[string]bool{}
+	for _, c := range q.calls() {
+		if !seen[c.Field] {
+			seen[c.Field] = true
+			fs = append(fs, c.Field)
+		}
+	}
+	return fs
+}
+
 func (q querySpec) rawText() string {
-	return fmt.Sprintf("SELECT %s FROM m0%s GROUP BY *", q.Field, q.where())
+	return fmt.Sprintf("SELECT %s FROM m0%s GROUP BY *", strings.Join(q.rawFields(), ", "), q.where())
 }
 
 // must tells whether the property demands equality for this query in this history.
@@ -333,9 +471,18 @@ func (o *observation) differs() bool {
 	return len(o.dup)+len(o.missing)+len(o.extra)+len(o.wrong) > 0
 }
 
+// observe runs the pair. With several calls every call is judged on its own against the
+// rows that hold a value of its field; group keys are then prefixed with "c<i>:".
 func (rn *runner) observe(s *proc.Server, q querySpec) (*observation, error) {
 	o := &observation{groups: map[string][]rawRow{}, want: map[string]answer{}, got: map[string]float64{},
 		gotTime: map[string]int64{}, gotRaw: map[string]string{}}
+	calls := q.calls()
+	prefix := func(ci int) string {
+		if q.multi() {
+			return fmt.Sprintf("c%d:", ci)
+		}
+		return ""
+	}
 	raw, err := s.Query(db, q.rawText(), nil)
 	if err != nil {
 		return nil, err
@@ -343,27 +490,47 @@ func (rn *runner) observe(s *proc.Server, q querySpec) (*observation, error) {
 	o.rawBody = raw.Raw
 	if len(raw.Results) > 0 {
 		for _, se := range raw.Results[0].Series {
+			col := map[string]int{}
+			for i, cn := range se.Columns {
+				col[cn] = i
+			}
 			for _, row := range se.Values {
-				if len(row) < 2 {
-					continue
-				}
-				v, ok := parseCell(row[1], q.Kind)
-				if !ok {
-					// openGemini returns the rows that pass the filter even when the selected
-					// field is null in them; they hold no value of x and count for nothing
-					o.nullRows++
-					continue
-				}
 				t, _ := strconv.ParseInt(fmt.Sprint(row[0]), 10, 64)
-				r := rawRow{t: t, host: se.Tags["host"], v: v}
-				k := q.key(r.host, r.t)
-				o.groups[k] = append(o.groups[k], r)
-				o.nrows++
+				for ci, c := range calls {
+					idx, ok := col[c.Field]
+					var v model.Value
+					if ok && idx < len(row) {
+						v, ok = parseCell(row[idx], c.Kind)
+					}
+					if !ok {
+						// openGemini returns the rows that pass the filter (or hold another
+						// selected field) even when this field is null in them; they hold no
+						// value of x and count for nothing
+						if ci == 0 {
+							o.nullRows++
+						}
+						continue
+					}
+					r := rawRow{t: t, host: se.Tags["host"], v: v}
+					k := prefix(ci) + q.key(r.host, r.t)
+					o.groups[k] = append(o.groups[k], r)
+					if ci == 0 {
+						o.nrows++
+					}
+				}
 			}
 		}
 	}
+	callOf := func(k string) callSpec {
+		if q.multi() {
+			ci, _ := strconv.Atoi(k[1:strings.IndexByte(k, ':')])
+			return calls[ci]
+		}
+		return calls[0]
+	}
 	for k, rs := range o.groups {
-		o.want[k] = applyFunc(q.Func, q.Kind, rs)
+		c := callOf(k)
+		o.want[k] = applyFunc(c.Func, c.Kind, rs)
 	}
 	agg, err := s.Query(db, q.aggText(), nil)
 	if err != nil {
@@ -373,44 +540,46 @@ func (rn *runner) observe(s *proc.Server, q querySpec) (*observation, error) {
 	dup := map[string]bool{}
 	if len(agg.Results) > 0 {
 		for _, se := range agg.Results[0].Series {
-			ci := -1
-			for i, cn := range se.Columns {
-				if cn == q.Func {
-					ci = i
+			for ci := range calls {
+				idx := -1
+				for i, cn := range se.Columns {
+					if cn == q.column(ci) {
+						idx = i
+					}
 				}
-			}
-			if ci < 0 {
-				continue
-			}
-			for _, row := range se.Values {
-				if row[ci] == nil {
-					// a null is "no value" (an empty bucket or group); never compared
+				if idx < 0 {
 					continue
 				}
-				t, _ := strconv.ParseInt(fmt.Sprint(row[0]), 10, 64)
-				var parts []string
-				if q.byHost() {
-					parts = append(parts, se.Tags["host"])
+				for _, row := range se.Values {
+					if row[idx] == nil {
+						// a null is "no value" (an empty bucket or group); never compared
+						continue
+					}
+					t, _ := strconv.ParseInt(fmt.Sprint(row[0]), 10, 64)
+					var parts []string
+					if q.byHost() {
+						parts = append(parts, se.Tags["host"])
+					}
+					if q.byTime() {
+						// the bucket start as the server reports it
+						parts = append(parts, strconv.FormatInt(t, 10))
+					}
+					key := prefix(ci) + strings.Join(parts, "|")
+					f, perr := strconv.ParseFloat(fmt.Sprint(row[idx]), 64)
+					if perr != nil {
+						o.wrong = append(o.wrong, key)
+						o.diff = append(o.diff, fmt.Sprintf("group %q: unparsable value %v", key, row[idx]))
+						continue
+					}
+					if _, seen := o.got[key]; seen && !dup[key] {
+						dup[key] = true
+						o.dup = append(o.dup, key)
+						o.diff = append(o.diff, fmt.Sprintf("group %q returned more than once", key))
+					}
+					o.got[key] = f
+					o.gotTime[key] = t
+					o.gotRaw[key] = fmt.Sprint(row[idx])
 				}
-				if q.byTime() {
-					// the bucket start as the server reports it
-					parts = append(parts, strconv.FormatInt(t, 10))
-				}
-				key := strings.Join(parts, "|")
-				f, perr := strconv.ParseFloat(fmt.Sprint(row[ci]), 64)
-				if perr != nil {
-					o.wrong = append(o.wrong, key)
-					o.diff = append(o.diff, fmt.Sprintf("group %q: unparsable value %v", key, row[ci]))
-					continue
-				}
-				if _, seen := o.got[key]; seen && !dup[key] {
-					dup[key] = true
-					o.dup = append(o.dup, key)
-					o.diff = append(o.diff, fmt.Sprintf("group %q returned more than once", key))
-				}
-				o.got[key] = f
-				o.gotTime[key] = t
-				o.gotRaw[key] = fmt.Sprint(row[ci])
 			}
 		}
 	}
@@ -429,20 +598,21 @@ func (rn *runner) observe(s *proc.Server, q querySpec) (*observation, error) {
 	for _, k := range ks {
 		w, wok := o.want[k]
 		g, gok := o.got[k]
+		c := callOf(k)
 		switch {
 		case wok && !gok:
 			o.missing = append(o.missing, k)
-			o.diff = append(o.diff, fmt.Sprintf("group %q: no value, rows give %v", k, w.vals))
+			o.diff = append(o.diff, fmt.Sprintf("group %q: %s(%s) has no value, rows give %v", k, c.Func, c.Field, w.vals))
 		case !wok && gok:
-			if q.Func == "count" && g == 0 {
+			if c.Func == "count" && g == 0 {
 				continue // count over no row may be reported as 0
 			}
 			o.extra = append(o.extra, k)
-			o.diff = append(o.diff, fmt.Sprintf("group %q: %s but the plain select returns no row there", k, o.gotRaw[k]))
+			o.diff = append(o.diff, fmt.Sprintf("group %q: %s(%s) = %s but the plain select returns no row there", k, c.Func, c.Field, o.gotRaw[k]))
 		default:
 			if !w.admits(g) {
 				o.wrong = append(o.wrong, k)
-				o.diff = append(o.diff, fmt.Sprintf("group %q: %s(%s) = %s, over the rows of the plain select = %v", k, q.Func, q.Field, o.gotRaw[k], w.vals))
+				o.diff = append(o.diff, fmt.Sprintf("group %q: %s(%s) = %s, over the rows of the plain select = %v", k, c.Func, c.Field, o.gotRaw[k], w.vals))
 			}
 		}
 	}
@@ -469,6 +639,10 @@ func (rn *runner) classify(s *proc.Server, q querySpec, o *observation, l kit.La
 		why = "time-bucket"
 	}
 	generic := fmt.Sprintf("aggregate-differs-from-rows|%s|group=%s|%s", q.Func, q.Group, why)
+	if q.multi() {
+		// several calls in one statement: no named class
+		return fmt.Sprintf("aggregate-differs-from-rows|multi-call|%s|group=%s|%s", q.callsText(), q.Group, why)
+	}
 	onlyWrong := len(o.wrong) > 0 && len(o.dup)+len(o.missing)+len(o.extra) == 0
 
 	// (1) descending order: first/last exchanged (with and without time buckets) ...
@@ -548,13 +722,9 @@ func (rn *runner) classify(s *proc.Server, q querySpec, o *observation, l kit.La
 
 var filters = []string{"fi > 0", "ff >= 0", "fb = true", "fi % 2 = 0"}
 
-func genQuery(r *rand.Rand, times []int64) querySpec {
-	fields := []struct {
-		n string
-		k byte
-	}{{"fi", 'i'}, {"ff", 'f'}}
-	f := fields[r.IntN(2)]
-	q := querySpec{Func: funcs[r.IntN(len(funcs))], Field: f.n, Kind: f.k}
+func genQuery(r *rand.Rand, times []int64, fields []callSpec) querySpec {
+	f := fields[r.IntN(len(fields))]
+	q := querySpec{Func: funcs[r.IntN(len(funcs))], Field: f.Field, Kind: f.Kind}
 	// time range: ends inside, on the edge of, outside the stored range
 	lo, hi := times[0], times[len(times)-1]
 	pick := func() int64 {
@@ -594,6 +764,27 @@ func genQuery(r *rand.Rand, times []int64) querySpec {
 	}
 	q.Hint = r.IntN(3) == 0
 	q.Desc = r.IntN(4) == 0
+	// a third of the statements carry two or three calls, over different fields where
+	// possible (sum / mean preferred: their statistics are folded by addition)
+	if r.IntN(3) == 0 {
+		pickFunc := func() string {
+			if r.IntN(2) == 0 {
+				return []string{"sum", "mean"}[r.IntN(2)]
+			}
+			return funcs[r.IntN(len(funcs))]
+		}
+		q.Func = pickFunc()
+		n := 1 + r.IntN(2)
+		used := map[string]bool{q.Field: true}
+		for i := 0; i < n; i++ {
+			g := fields[r.IntN(len(fields))]
+			for tries := 0; used[g.Field] && tries < 8; tries++ {
+				g = fields[r.IntN(len(fields))]
+			}
+			used[g.Field] = true
+			q.More = append(q.More, callSpec{Func: pickFunc(), Field: g.Field, Kind: g.Kind})
+		}
+	}
 	return q
 }
 
@@ -717,19 +908,19 @@ func (rn *runner) run(h *history, worker int, only *querySpec) {
 			}
 			nq := c.Pick(14, 40)
 			for k := 0; k < nq; k++ {
-				q := genQuery(r, u.Times)
+				q := genQuery(r, u.Times, numericFields(h.Kind))
 				if only != nil {
 					if k > 0 {
 						break
 					}
 					q = *only
-					q.Kind = map[string]byte{"fi": 'i', "ff": 'f'}[q.Field]
+					q.restoreKinds()
 				}
 				o, err := rn.observe(s, q)
 				if err != nil {
 					if !s.Alive() {
 						c.Violation("server-died:"+firstFatal(s.StdoutTail(1<<20)), fmt.Sprintf("history %d: server died answering %s", h.Index, q.aggText()),
-							map[string]any{"history": history{Index: h.Index, Config: h.Config, SingleGen: h.SingleGen, Steps: h.Steps[:i+1]}, "query": q, "stdout": s.StdoutTail(5000)})
+							map[string]any{"history": history{Index: h.Index, Kind: h.Kind, Config: h.Config, SingleGen: h.SingleGen, Steps: h.Steps[:i+1]}, "query": q, "stdout": s.StdoutTail(5000)})
 						return
 					}
 					c.Inconclusive("query-error", 1)
@@ -737,8 +928,17 @@ func (rn *runner) run(h *history, worker int, only *querySpec) {
 					continue
 				}
 				c.Eval(1)
-				shape := fmt.Sprintf("%s|group=%s|bounded=%v|filter=%v|hint=%v|desc=%v", q.Func, q.Group, q.Bound, q.Filter != "", q.Hint, q.Desc)
+				fn := q.Func
+				if q.multi() {
+					var fs []string
+					for _, cl := range q.calls() {
+						fs = append(fs, cl.Func)
+					}
+					fn = strings.Join(fs, "+")
+				}
+				shape := fmt.Sprintf("%s|group=%s|bounded=%v|filter=%v|hint=%v|desc=%v", fn, q.Group, q.Bound, q.Filter != "", q.Hint, q.Desc)
 				c.Distinct("query-shape", shape)
+				c.Distinct("history-kind", h.Kind)
 				c.Distinct("time-range-ends", rangeClass(q, u.Times))
 				if o.nrows > 0 {
 					c.Nontrivial(shape + "|" + l.String())
@@ -769,12 +969,21 @@ func (rn *runner) run(h *history, worker int, only *querySpec) {
 					if q.Desc {
 						c.Count("pairs-judged-descending", 1)
 					}
+					if q.multi() {
+						c.Count("pairs-judged-multi-call", 1)
+						if q.statisticsEligible() {
+							c.Count("pairs-judged-multi-call-eligible-for-stored-statistics", 1)
+							if h.Kind != "classic" {
+								c.Count("pairs-judged-multi-call-eligible-for-stored-statistics-over-sparse-fields", 1)
+							}
+						}
+					}
 				}
 				if o.differs() {
 					sig := rn.classify(s, q, o, l)
 					known := c.Violation(sig,
 						fmt.Sprintf("history %d (%s, layout %s): %s  vs  %s: %s", h.Index, h.Config, l.String(), q.aggText(), q.rawText(), strings.Join(o.diff, "; ")),
-						map[string]any{"history": history{Index: h.Index, Config: h.Config, SingleGen: h.SingleGen, Steps: h.Steps[:i+1]}, "query": q, "diff": o.diff,
+						map[string]any{"history": history{Index: h.Index, Kind: h.Kind, Config: h.Config, SingleGen: h.SingleGen, Steps: h.Steps[:i+1]}, "query": q, "diff": o.diff,
 							"aggregate_response": o.aggBody, "plain_response": o.rawBody})
 					if !known {
 						unknown++
@@ -797,8 +1006,8 @@ func (rn *runner) run(h *history, worker int, only *querySpec) {
 				ops = append(ops, st.Op)
 			}
 		}
-		q := genQuery(r, u.Times)
-		c.Sample(map[string]any{"history": h.Index, "config": h.Config, "single_generation": h.SingleGen, "ops": strings.Join(ops, " "), "a_query_pair": []string{q.aggText(), q.rawText()}})
+		q := genQuery(r, u.Times, numericFields(h.Kind))
+		c.Sample(map[string]any{"history": h.Index, "config": h.Config, "kind": h.Kind, "single_generation": h.SingleGen, "ops": strings.Join(ops, " "), "a_query_pair": []string{q.aggText(), q.rawText()}})
 	}
 }
 
@@ -825,7 +1034,7 @@ func firstFatal(s string) string {
 
 func main() {
 	c := vf.New("C09", "exploration")
-	c.SetRule("seeded histories over 5 series × 24 timestamps (null-heavy columns, late data, max-rows-per-segment 3 / 8 / default) with flush / level+full compaction / out-of-order merge at seeded positions on a real ts-server; at check points generated query pairs (f ∈ count,sum,mean,min,max,first,last; overall / per tag / per epoch-aligned time bucket / per bucket and tag; time ranges ending on a stored timestamp, between two, below and above the data; four field filters; exact hint on/off; asc/desc): SELECT f(x) must equal f over the rows SELECT x returns; pairs the property does not demand (multi-generation history, no hint/filter/bucket) are counted separately; distinct non-trivial = distinct (query shape, layout vector) with at least one row")
+	c.SetRule("seeded histories of three kinds — classic: 5 series × 24 timestamps, four typed fields, null-heavy; late-fields: two more numeric fields that appear only after the first flush (old fields in files, new ones in the memtable, files holding different fields); many-series: 48 series under 5 host values, every series writing only its own field subset — (late data, max-rows-per-segment 3 / 8 / default) with flush / level+full compaction / out-of-order merge at seeded positions on a real ts-server; at check points generated query pairs (one to three calls per statement over different int/float fields, each call judged on its own; f ∈ count,sum,mean,min,max,first,last; overall / per tag / per epoch-aligned time bucket / per bucket and tag; time ranges ending on a stored timestamp, between two, below and above the data; four field filters; exact hint on/off; asc/desc): SELECT f(x) must equal f over the rows SELECT x returns; pairs the property does not demand (multi-generation history, no hint/filter/bucket) are counted separately; distinct non-trivial = distinct (query shape, layout vector) with at least one row")
 	c.Assume("the plain select is the reference (its own correctness is C02/C08); rows it returns with a null in x hold no value of x; first/last ties across series admit any of the tied values; a null in the aggregate's answer means no value; count = 0 for a group without rows is accepted")
 	bin, err := proc.Build(c.RepoDir, c.Scratch, "ts-server", false)
 	if err != nil {
